@@ -312,7 +312,8 @@ def run(chk: common.Check):
               "ranges for all profiles; grid and window rows over Q for all min/max/step). Correspondence: make_grid on a lattice of decimal and "
               "binary steps (exact), get_folding_profile on synthetic group vectors (bit for bit, float model with recorded libm tables), printed "
               "window rows for -g/-w combinations on a real structure; distinct = distinct argument tuples. Search: exact expected grids/rows, "
-              "central differences of the profile vs 1.36 (Qf-Qu)"),
+              "central differences of the profile vs 1.36 (Qf-Qu)"
+              " Added in rounds 5-6: profiles with several separate stretches below zero / 80 %, an oracle for the 80 % range, the three summary lines of the section vs the computed profile, proton linkage on synthetic groups."),
         assumptions=["formal charges are +-1 (C18_shipped_charges_are_unit)", "theorems over R / Q; rounding covered by the bit-exact correspondence",
                      "grid arguments are decimals as typed by the user (str(float) is exact for them)"],
         trusted=["py2coq translator (validated)", "hand models Charge.v / Grid.v (validated)", "Coquelicot, stdlib real axioms"])
